@@ -196,6 +196,21 @@ def intrinsics():
 
     # ---- iterators
     I["core::iter::traits::collect::IntoIterator::into_iter"] = lambda ip, n, a: to_iter(a[0])
+    def discriminant(ip, n, a):
+        """core::intrinsics::discriminant_value, as called by derived PartialEq / PartialOrd / Hash: the variant's ordinal."""
+        v = d(a[0])
+        if isinstance(v, A.Enum):
+            adt = ip.C.adt_by_path.get(v.adt)
+            names = [x["name"] for x in adt["variants"]] if adt else []
+            if v.variant in names:
+                return names.index(v.variant)
+            if v.adt in (OPTION,):
+                return {"None": 0, "Some": 1}[v.variant]
+            if v.adt in (RESULT,):
+                return {"Ok": 0, "Err": 1}[v.variant]
+        raise A.Unsupported("discriminant of %r" % (v,))
+    I["core::intrinsics::discriminant_value"] = discriminant
+
     def ptr_eq(ip, n, a):
         x, y = d(a[0]), d(a[1])
         if isinstance(x, (A.VecV, A.Struct, A.Enum, MapV, SetV)) and isinstance(y, (A.VecV, A.Struct, A.Enum, MapV, SetV)):
